@@ -34,19 +34,25 @@ def nofire_pipelines(rng):
     return out
 
 
-def gen_case(rng):
+def gen_case(rng, bf=None, boundary=False):
     dims = rng.sample([2, 3, 5, 6, 7, 9, 12, 20], 3)
     if rng.random() < 0.15:
         dims[rng.randrange(3)] = 1
     H, W, D = dims
-    bf = rng.choice(BOX_FORMATS)
+    bf = bf or rng.choice(BOX_FORMATS)
     kf = rng.choice(KP_FORMATS)
     deg = rng.random() < 0.5
     boxes = []
-    for i in range(rng.randint(0, 3)):
+    for i in range(rng.randint(2, 3) if boundary else rng.randint(0, 3)):
         def seg(n):
             a = rng.uniform(0, n * 0.7)
             b = rng.uniform(a + n * 0.05, n)
+            # faces ON the frame boundary (a valid box may touch or span the frame: extent exactly 1 in the
+            # normalised formats); a boundary case has the first box span the whole frame along every axis
+            if boundary and (i == 0 or rng.random() < 0.5):
+                a = 0.0
+            if boundary and (i == 0 or rng.random() < 0.5):
+                b = float(n)
             return a, b
         (x1, x2), (y1, y2), (z1, z2) = seg(W), seg(H), seg(D)
         if bf == 'pascal_voc_3d':
@@ -124,6 +130,14 @@ def run(seed=0, tier='quick', hints=None, broken=False):
             check_one(name, specs, ckw, case, viol)
             evals += 1
             seen.add((name, case['bbox_format'], case['kp_format'], case['degrees'], tuple(case['shape'])))
+    # boxes touching / spanning the frame, in every format
+    for rep in range(1 if tier == 'quick' else 20):
+        for bf in BOX_FORMATS:
+            case = gen_case(rng, bf=bf, boundary=True)
+            for name, specs, ckw in nofire_pipelines(rng)[:3]:
+                check_one(name + '-boundary-boxes', specs, ckw, case, viol)
+                evals += 1
+            seen.add(('boundary', bf, tuple(case['shape'])))
     return {'violations': viol, 'info': {'evaluations': evals, 'distinct': len(seen),
                                          'what': 'non-firing pipelines x annotation formats x angle units x non-cubic frames'}}
 
